@@ -319,7 +319,9 @@ CLAIMS = {
              "the stream into non-empty chunks: nothing is raised, after the first j chunks exactly the frames whose last "
              "byte has been handed over have been delivered (in order, once - never early, never late), and at the end the "
              "buffer is empty with the search position reset (induction over frames inside an induction over chunks). "
-             "(3) the polling loop of the correspondence scripts is the proved one. The same scripts run on the real "
+             "(3) C10_standard_stream_any_chunking composes this with C09: for the STANDARD frames a meter sends for any list "
+             "of segments, numbered as the link prescribes, with any pattern of shared flags - no acceptance hypothesis left. "
+             "(4) the polling loop of the correspondence scripts is the proved one. The same scripts run on the real "
              "HdlcConnection (every single and double cut of short streams, random multi-cuts to 1-byte chunks) and the "
              "delivered-frames search runs on the implementation.",
         note="Every clause is a theorem about the model; the model is tied to the code by the scripted correspondence and the "
